@@ -13,6 +13,10 @@ IN_PROGRESS = "StoreObjectForPidAlreadyInProgress"
 
 def norm_outcome(op, out):
     """Outcome of one call, normalised for comparison between executions."""
+    if op.get("op") == "seq":
+        # several calls issued one after the other by ONE caller: a vector of outcomes (calls not reached: "none")
+        outs = list(out[1]) if out is not None and out[0] == "seq" else []
+        return ("seq",) + tuple(norm_outcome(sub, outs[i] if i < len(outs) else None) for i, sub in enumerate(op["ops"]))
     if out is None:
         return ("none",)
     if out[0] == "abort":
@@ -58,6 +62,8 @@ class World:
 
     def exec_call(self, store, op):
         k = op["op"]
+        if k == "seq":
+            return ("seq", [self.exec_call(store, sub) for sub in op["ops"]])
         if k == "store":
             kw = {}
             if op.get("cks") == "wrong":
@@ -111,15 +117,37 @@ class World:
         if key in self._seq_cache:
             return self._seq_cache[key]
         res = {}
-        for perm in itertools.permutations(range(len(calls))):
+        # atoms: (position in `calls`, index inside a "seq" call or None, operation); a sequential order is a permutation of the
+        # atoms that keeps the calls of one caller in their program order
+        atoms = []
+        for j, (i, op) in enumerate(calls):
+            if op["op"] == "seq":
+                atoms += [(j, n, sub) for n, sub in enumerate(op["ops"])]
+            else:
+                atoms.append((j, None, op))
+        for perm in itertools.permutations(range(len(atoms))):
+            seen, ok = {}, True
+            for a in perm:
+                j, n, _ = atoms[a]
+                if n is not None:
+                    if seen.get(j, -1) != n - 1:
+                        ok = False
+                        break
+                    seen[j] = n
+            if not ok:
+                continue
             d = self.fresh_copy()
             store = sched.make_owned_store(d, self.cfg, mp_mode)
             outs = {}
-            for j in perm:
-                i, op = calls[j]
-                outs[i] = norm_outcome(op, self.exec_call(store, op))
-            vec = tuple(outs[i] for i, _ in calls)
-            res[(vec, common.alpha_key(self.final_state(d)))] = [calls[j][0] for j in perm]
+            for a in perm:
+                j, n, sub = atoms[a]
+                o = norm_outcome(sub, self.exec_call(store, sub))
+                if n is None:
+                    outs[j] = o
+                else:
+                    outs.setdefault(j, []).append(o)
+            vec = tuple(outs[j] if calls[j][1]["op"] != "seq" else ("seq",) + tuple(outs[j]) for j in range(len(calls)))
+            res[(vec, common.alpha_key(self.final_state(d)))] = [(calls[atoms[a][0]][0], atoms[a][1]) for a in perm]
             shutil.rmtree(d, ignore_errors=True)
         self._seq_cache[key] = res
         return res
@@ -131,7 +159,7 @@ class Execution:
 
 
 def run_program(world, calls, order, preemptions, mp_mode=False, keep_dir=False, on=None, read_boundaries=False,
-                instances=None, extra_on_op=None, expire_timed=False, source_reads=False):
+                instances=None, extra_on_op=None, expire_timed=False, source_reads=False, list_order=None):
     """Run the calls (one thread each) on a fresh copy of the start state under the given schedule
     (or, with on=(directory, store), on an existing store instance).  instances=[i, ...]: call n goes through
     store instance i (several FileHashStore objects opened on the same directory in this process)."""
@@ -149,6 +177,7 @@ def run_program(world, calls, order, preemptions, mp_mode=False, keep_dir=False,
     if source_reads:
         s.ctx.extra_read_roots = [os.path.realpath(world.run.src), world.run.src]
     s.expire_timed_waits = expire_timed
+    s.ctx.list_order = list_order
     if extra_on_op is not None:
         s.extra_on_op = extra_on_op() if isinstance(extra_on_op, type) or getattr(extra_on_op, "is_factory", False) else extra_on_op
     for n, op in enumerate(calls):
@@ -329,6 +358,8 @@ def removal_phase(world, ti, ex, cid):
 def op_pattern(op, world):
     """Call pattern with identifiers abstracted (for signatures / distinct keys)."""
     k = op["op"]
+    if k == "seq":
+        return "seq[" + ";".join(op_pattern(sub, world) for sub in op["ops"]) + "]"
     if k == "store":
         odd = "".join(f",{a}!" for a in ("cks", "size") if op.get(a) == "wrong") + (",add" if op.get("add") else "")
         return f"store({'pid' if op.get('pid') else 'None'},c{op['c']}{odd})"
